@@ -92,12 +92,18 @@ func TestRegexpStandIn(t *testing.T) {
 	for in, want := range map[string]string{
 		`abc`:         `x`,
 		`a(b)c`:       `x(x)x`,
-		`a\(b`:        `x`,
+		`a\(b`:        `x\(x`,
 		`(?P<n>a.b)c`: `(?P<n>x)x`,
 		`a)b(`:        `x)x(`,
 		"a\nb":        `x`,
 		`a>b`:         `x`,
-		`'\`:          `x`, // the trailing backslash swallows the closing bracket: the request is refused
+		`'\`:          `x\`, // the trailing backslash escapes the closing bracket: twin and value are both refused
+		`(?i)`:        `(?i)`,
+		`(?i)'`:       `(?i)x`,
+		`(?:a'|b)`:    `(?:x)`,
+		`(?i:a)(b)`:   `(?i:x)(x)`,
+		`[(]'`:        `[(]x`,
+		`(?'a)`:       `(x)`,
 	} {
 		if got := regexpStandIn(in, "x"); got != want {
 			t.Errorf("regexpStandIn(%q) = %q, want %q", in, got, want)
